@@ -5,7 +5,7 @@ META = {
     "bounds": {
         "markup": "markup trees of 6 concrete shapes (depth <= 3, <= 4 leaves), leaves of 0..2 symbolic characters, tags solver-chosen from {a, b, c, None}",
         "layout": "text of L <= 3 characters, each solver-chosen from {symbolic ASCII printable, space, newline, U+00E9 (2 bytes, 1 column), U+4E00 (3 bytes, 2 columns)}; "
-                  "1-3 attribute runs with symbolic lengths; width 1..4 (5 thorough) concretised; wrap and align concrete",
+                  "1-3 attribute runs with symbolic lengths; width 1..3 (4 thorough) concretised; wrap and align concrete",
         "maps": "AttrMap / fill_attr_apply chains of depth <= 3 over a leaf canvas with attributes from {None, a, b, c}; map entries solver-chosen",
         "sgr": "AttrSpec from every basic colour name / a few high and true colours x each style flag x bright_is_bold, at depths 1, 16, 88, 256, 2^24",
     },
@@ -34,7 +34,7 @@ def instances(tier):
             if q and align == "center" and wrap != "space":
                 continue
             for L in ((2, 3) if q else (1, 2, 3)):
-                out.append(Instance("layout.%s.%s.L%d" % (wrap, align, L), "h_layout", {"wrap": wrap, "align": align, "L": L, "maxw": 3 if q else 5}, timeout=900 if q else 3000))
+                out.append(Instance("layout.%s.%s.L%d" % (wrap, align, L), "h_layout", {"wrap": wrap, "align": align, "L": L, "maxw": 3 if q else 4}, timeout=900 if q else 3000))
     for depth in (1, 2, 3):
         out.append(Instance("maps.d%d" % depth, "h_maps", {"depth": depth, "widget": False}, timeout=900))
     out.append(Instance("maps.attrmap", "h_maps", {"depth": 0, "widget": True}, timeout=900))
